@@ -1016,13 +1016,6 @@ func run(r *enumlib.Run) {
 			func(i int64) *fields { return addrGen(int(i&0xFFFF), addrCorners[i>>16%nc], i>>16/nc) })
 		c.frameSpace("addresses-all-destination", 65536*nc*2*3*2, "source over the corner alphabet x all 2^16 destination addresses x group flag x 3 message codes x 2 shapes",
 			func(i int64) *fields { return addrGen(addrCorners[i>>16%nc], int(i&0xFFFF), i>>16/nc) })
-		c.frameSpace("addresses-all-pairs", 1<<32, "all 2^32 (source, destination) pairs, L_Data.ind, group flag = bit 15 of the destination xor bit 0 of the source, GroupValueWrite",
-			func(i int64) *fields {
-				f := &fields{Code: codeInd, Std: true, Prio: 3, Hops: 6, Src: int(i >> 16), Dst: int(i & 0xFFFF)}
-				f.Group = (i>>15^i>>16)&1 != 0
-				shapes[0].apply(f)
-				return f
-			})
 	}
 
 	if len(c.ood) == 0 {
